@@ -1,13 +1,76 @@
-"""placeholder while developing (agent unitfs)"""
+"""FBig digit shifts and sign operations, Reduced clone / clone_from (agent unitfs), property C15 "all call forms agree".
+
+Vocabulary: contracts/lib/fs_spec.rs (ONE predicate per operation for all of its call forms), contracts/lib/fs_stubs.rs.
+Annotated copies: contracts/annot/float/shift/ (float/src/shift.rs, float/src/sign.rs, float/src/error.rs assert_finite
+with its must_panic variant).
+
+float_shift      float/src/shift.rs, all four impls: Shl<isize>, ShlAssign<isize>, Shr<isize>, ShrAssign<isize> for FBig
+                 (hoisted: fbig_shl, fbig_shl_assign, fbig_shr2, fbig_shr_assign).
+                   requires fs_shift_req(x, n): x finite, and x != 0 ==> exponent + n is an isize (exponent overflow: C16)
+                   ensures  fs_shift_post(x, n, r): r.significand == x.significand, r.precision == x.precision,
+                            x == 0 ==> r.exponent == 0,  x != 0 ==> r.exponent == x.exponent + n
+                   with n = rhs for `<<` `<<=`, n = -rhs for `>>` `>>=`; r = return value resp. the value left in `*self`.
+                 lemma_fs_shift_value: the statement IS r == x * B^n on values (fs_scaled) and r is finite;
+                 lemma_fs_shift_inverse: (x << n) >> n == x on the representation.
+                 The real `Shr<isize> for FBig` is ALSO verified in unit ratio_to_fbig (fbig_shr, equivalent contract).
+float_shift_inf  the same four impls, must_panic variants: infinite operand ==> no normal return in any form
+                 ("every form returns the same value, or every form panics"; assert_finite verified in its must_panic reading).
+float_sign       float/src/sign.rs, every item:  Neg for FBig / Neg for &FBig / Mul<FBig> for Sign / Mul<Sign> for FBig /
+                 MulAssign<Sign> for FBig against fs_sign_post(x, s, r) (significand sgn_apply(s, x.significand), exponent and
+                 precision kept; s = Negative for Neg);  Abs for FBig (fs_abs_post: |significand|);  Neg for Repr;
+                 FBig::sign and Signed::sign for FBig against fs_sign_of (zero and +inf Positive, -inf Negative);
+                 FBig::signum (significand fs_signum_of in {-1, 0, 1} by the sign of the value incl. infinities, exponent 0,
+                 precision 1).  No precondition (infinities included, see OBSERVATION in the unit header).
+
+Trusted (beyond round_int_stubs.rs / farith_add_stubs.rs / ebounds_stubs.rs / conv_fbig_stubs.rs, which these units INCLUDE):
+  lib/fs_stubs.rs  `impl Abs for IBig`: r.v() == |self.v()|  (integer/src/sign.rs: `with_sign(Positive)`); trait Abs mirrored.
+  The call-site form of `Neg for FBig` (NegSpecImpl, used by `Neg for &FBig`: `self.clone().neg()`) is NOT an assumption:
+  the real method is proved against exactly that statement (`ret == fs_neg_spec(self)`) in the same unit.
+  Used from the included libs: IBig Neg (ibig_of(-v)), IBig *= Sign (sgn_apply), IBig::signum, IBig::{is_zero, sign}, IBig::ONE /
+  NEG_ONE constants, `Clone for FBig` (field-wise copy).
+
+int_modclone     Kani, BOUNDED: integer/src/modular/repr.rs `Clone for Reduced` / `Clone for ReducedRepr` (clone, clone_from).
+"""
+VERUS = {
+    'float_shift': {'file': 'float_shift.rs', 'w32': False},
+    'float_shift_inf': {'file': 'float_shift_inf.rs', 'w32': False},
+    'float_sign': {'file': 'float_sign.rs', 'w32': False},
+}
+
+_MC = ('concrete rings: 3-word [7,5,2^62+1] and [9,3,2^62+3], 4-word [3,0,1,2^62+5], single 1_000_003 / 1_000_033, double '
+       '2^64+13 / 2^64+15; the three stored words of a 3-word element are symbolic within the validity invariant (low word '
+       'even, top word < 2^62); ')
 KANI = {
     'int_modclone': {
         'package': 'dashu-int', 'target': 'integer/src/modular/repr.rs', 'file': 'int_modclone.rs',
         'harnesses': {
-            'vk_modclone_large_across_rings': {'kind': 'bounded', 'bound': 'x'},
-            'vk_modclone_large_same_ring': {'kind': 'bounded', 'bound': 'x'},
-            'vk_modclone_large_other_length': {'kind': 'bounded', 'bound': 'x'},
-            'vk_modclone_mixed_repr': {'kind': 'bounded', 'bound': 'x'},
-            'vk_modclone_clone': {'kind': 'bounded', 'bound': 'x'},
+            # clone_from Large <- Large over two DIFFERENT rings of equal length (buffer-reusing branch): ring object and
+            # words of the source, source unchanged, `==` defined and true, writing into the clone leaves the source alone
+            'vk_modclone_large_across_rings': {'kind': 'bounded', 'bound': _MC + 'target in ring A, source in ring B'},
+            'vk_modclone_large_same_ring': {'kind': 'bounded', 'bound': _MC + 'target and source in ring A'},
+            'vk_modclone_large_other_length': {'kind': 'bounded', 'bound': _MC + '3-word target <- 4-word source [2, any, 5, 1] '
+                                                                                 'and 4-word target <- 3-word source'},
+            'vk_modclone_mixed_repr': {'kind': 'bounded', 'bound': _MC + 'the 8 ordered pairs single<-double, large<-double, '
+                                       'double<-double(other ring), double<-single, large<-single, single<-single(other ring), '
+                                       'single<-large, double<-large (symbolic selector), concrete elements'},
+            'vk_modclone_clone': {'kind': 'bounded', 'bound': _MC + 'clone() of one single, one double, one 3-word element'},
         },
     },
+}
+
+PROP_UNITS = {
+    'C15': {'verus': ['float_shift', 'float_shift_inf', 'float_sign'],
+            'kani': ['int_modclone'],
+            'undecided': [
+                'FBig `<<` `<<=` `>>` `>>=` by isize (float/src/shift.rs) and the sign forms of float/src/sign.rs (-x, -&x, '
+                'Sign * x, x * Sign, x *= Sign, sign()/Signed::sign) are PROVED to agree (one predicate per operation, units '
+                'float_shift / float_shift_inf / float_sign); exponent overflow of isize is outside the shift contract (C16)',
+                'OBSERVATION (unchanged tree; all forms agree, so not a C15 violation; C03 is about finite operands): negation, '
+                'multiplication by Sign::Negative and abs only touch the significand, an infinity (significand 0, sign in the '
+                'exponent) is returned unchanged: -FBig::INFINITY == FBig::INFINITY, FBig::NEG_INFINITY.abs() == NEG_INFINITY '
+                '(natively reproduced); float/src/repr.rs documents "any other operations on the infinity will lead to panic"',
+                'Reduced clone / clone_from (integer/src/modular/repr.rs): BOUNDED Kani group int_modclone on concrete rings '
+                '(ring identity by pointer and stored words of the source, independence of the storage); arbitrary ring lengths '
+                'and the Box<[Word]>::clone_from internals are not proved',
+            ]},
 }
